@@ -473,7 +473,7 @@ def load_kf():
     return {e['id']: e for e in d.get('findings', [])}
 
 
-def run_property(pid, queries, meta, tier, seed, jobs=None):
+def run_property(pid, queries, meta, tier, seed, jobs=None, evidence_name=None):
     t0 = time.time()
     work = Work()
     kf = load_kf()
@@ -553,7 +553,7 @@ def run_property(pid, queries, meta, tier, seed, jobs=None):
             'violations': len(violations),
         }
         os.makedirs(os.path.join(ROOT, 'evidence'), exist_ok=True)
-        with open(os.path.join(ROOT, 'evidence', pid + '.json'), 'w') as f:
+        with open(os.path.join(ROOT, 'evidence', (evidence_name or pid) + '.json'), 'w') as f:
             json.dump(ev, f, indent=1)
         print('%s tier=%s: %d queries: %d proved, %d known-finding, %d violation, %d undecided; %.0fs' %
               (pid, tier, len(results), len(proved), len(known), len(violations), len(undecided), wall))
